@@ -433,6 +433,11 @@ where
 
                 match result {
                     Ok(connection) => {
+                        // Registering a shareable connection ends this checkout's attempt
+                        // and clears its marker: a marker found later is someone else's.
+                        if connection.can_share() {
+                            *this.owns_attempt = false;
+                        }
                         Poll::Ready(Ok(register_connected(this.pool, *this.token, connection)))
                     }
                     Err(e) => Poll::Ready(Err(e)),
@@ -463,6 +468,11 @@ where
 
                 match result {
                     Ok(connection) => {
+                        // Registering a shareable connection ends this checkout's attempt
+                        // and clears its marker: a marker found later is someone else's.
+                        if connection.can_share() {
+                            *this.owns_attempt = false;
+                        }
                         Poll::Ready(Ok(register_connected(this.pool, *this.token, connection)))
                     }
                     Err(e) => Poll::Ready(Err(e)),
